@@ -113,6 +113,12 @@ class Registry:
     def contract(self, qualname: str, props=()):
         def deco(impl):
             c = Contract(qualname, impl, list(props))
+            old = self.contracts.get(c.qualname)
+            if old is not None:
+                # a later specification module restates the contract of a function (e.g. the module that verifies the
+                # function replaces a placeholder): recorded and reported in the evidence (`contract_overrides`)
+                self.__dict__.setdefault("overrides", []).append(
+                    (c.qualname, getattr(old.impl, "__module__", "?"), getattr(impl, "__module__", "?"), bool(old.verify), bool(c.verify)))
             self.contracts[c.qualname] = c
             return impl
 
